@@ -35,7 +35,7 @@ CLAIMS = {
              'symbol": layout agreement of control blocks with the views generic code casts them to, dispatch agreement, duplicate '
              'suppression dominating every state update, equivalence of the two submission APIs, completion implies all k slots filled '
              '(monotone), and a closed classification of every store into a symbol table.',
-        design_ref='DESIGN.md section 6 C01; rules R-LAYOUT, R-DISPATCH, R-DUP, R-SETAVAIL, R-COMPLETE, R-SRCSTORE, R-SRCPTR, R-SIBLINGS (11.2)',
+        design_ref='DESIGN.md section 6 C01; rules R-LAYOUT, R-DISPATCH, R-DUP, R-SETAVAIL, R-COMPLETE, R-SRCSTORE, R-SRCPTR, R-SIBLINGS, R-INIT-ORDER, R-SYMTAB-WRITERS, R-IT-REGISTER, R-COPY-SCALE (11.2)',
         note='Decides only these structural clauses; does NOT decide that decoded bytes are right (value-level). ' + BASE,
         technique='layout comparison from debug info; dominance/guard rules over the CFG; value-origin classification of stores'),
     'C02': dict(
@@ -50,7 +50,7 @@ CLAIMS = {
     'C04': dict(
         text='Mechanism only: duplicate suppression dominates every state update of the iterative decoder; completion is reported exactly '
              'when the scan over the k source slots finds none empty and never reverts; layout of the LDPC block matches the generic view.',
-        design_ref='DESIGN.md section 6 C04; rules R-DUP, R-COMPLETE, R-LAYOUT, R-RETSET',
+        design_ref='DESIGN.md section 6 C04; rules R-DUP, R-COMPLETE, R-LAYOUT, R-RETSET, R-IT-STEP3, R-CB, R-NULLFEED, R-FLAG-TRUTH, R-EXTRA-MARK, R-INIT-ORDER, R-SYMTAB-WRITERS, R-IT-REGISTER, R-COPY-SCALE (11.2)',
         note='First sentence of the claim: mechanism only. The heart of C04 (available set = peeling closure for every order) is a '
              'fixpoint statement that static analysis in reach cannot decide and is NOT claimed. ' + BASE,
         technique='dominance/guard rules; layout comparison'),
@@ -85,10 +85,12 @@ CLAIMS = {
              'destructor releases whenever non-NULL (seven destructors; matrix members need both the matrix destructor and the struct '
              'free); element sweeps cover exactly the library-owned index ranges and never the application-owned source slots; a '
              'typestate walk proves every local allocation is freed/handed over on every non-error exit; no use after free, double '
-             'free, or dangling member left behind by a function that frees a member.',
-        design_ref='DESIGN.md section 6 C08; rules R-OWN-FIELD, R-OWN-ELEM, R-OWN-LOCAL, R-UAF, R-DANGLING',
+             'free, or dangling member left behind by a function that frees a member; no member that may own a block is overwritten by '
+             'a new allocation outside set-up (guarded, released first, transient, or single-shot).',
+        design_ref='DESIGN.md section 6 C08; rules R-OWN-FIELD, R-OWN-ELEM, R-OWN-LOCAL, R-OWN-OVERWRITE (11.2), R-UAF, R-DANGLING',
         note='Decides these clauses for all paths of all API-reachable functions; exits with an error status (allocation failure) are '
-             'exempt (not protocol-conforming); leaks that need ESI arithmetic to see (the repaired D6) are a declared miss. ' + BASE,
+             'exempt (not protocol-conforming); of_finish_decoding is taken as final (a retry after FAILURE is outside the documented '
+             'protocol and not analysed). ' + BASE,
         technique='ownership/effect analysis: owned-vs-released field sets, loop-range rules for sweeps, typestate dataflow for locals'),
     'C17': dict(
         text='Structural invariants the set semantics of the sparse matrix rests on: complete row+column linking of every fresh entry '
@@ -152,8 +154,10 @@ CLAIMS = {
         text='Mechanism only: the bulk submission API is n per-symbol submissions; every OK path of the ML routine passes, in order, '
              'the injection of all k source and all n-k repair slots, the system simplification, the dense conversion, the solver and '
              'the write-back of all k slots; status agrees with completion; the solver keeps right-hand sides with rows and starts from '
-             'an empty scratch list.',
-        design_ref='DESIGN.md section 6 C03; rules R-SETAVAIL, R-ML-PIPELINE, R-FINISH-TRUTH, R-PAIRSWAP, R-SCRATCH-RESET',
+             'an empty scratch list; the pipeline gives up on dimension grounds only for rows < columns; the counters the solver '
+             'relies on are not re-initialised after the null symbol was pre-loaded; the last-symbol-null claim is sound; the XOR '
+             'kernels are byte-exact.',
+        design_ref='DESIGN.md section 6 C03; rules R-SETAVAIL, R-ML-PIPELINE, R-FINISH-TRUTH, R-PAIRSWAP, R-SCRATCH-RESET, R-ML-GIVEUP, R-INIT-ORDER, R-FLAG-TRUTH, R-EXTRA-MARK, R-NULLFEED, R-KEA on the XOR kernels (11.2)',
         note='First sentence: mechanism only. "Succeeds iff uniquely determined" is a rank condition with no structural clause; it is '
              'NOT claimed. ' + BASE,
         technique='must-pass-through ordering over the CFG, loop-range rules, dominance'),
@@ -184,7 +188,7 @@ CLAIMS = {
              '(sources first), completion scan, duplicate suppression, table-store classification, NULL-slot contract, encoder '
              'accumulation, read-only sources, release completeness, and the mixed-radix rule showing that row checks and column checks '
              'of the generated matrix each cover every source symbol exactly once.',
-        design_ref='DESIGN.md section 6 C16; rules R-LAYOUT, R-DISPATCH, R-APIGUARD, R-SETAVAIL, R-COMPLETE, R-DUP, R-SRCSTORE, R-SRCPTR, R-NULLSLOT, R-ENC-LOOP, R-RO-FLOW, R-2D-RADIX, R-OWN-FIELD, R-OWN-ELEM, R-SIBLINGS (11.2)',
+        design_ref='DESIGN.md section 6 C16; rules R-LAYOUT, R-DISPATCH, R-APIGUARD, R-SETAVAIL, R-COMPLETE, R-DUP, R-SRCSTORE, R-SRCPTR, R-NULLSLOT, R-ENC-LOOP, R-RO-FLOW, R-2D-RADIX, R-OWN-FIELD, R-OWN-ELEM, R-SIBLINGS, R-INIT-ORDER, R-2D-DIVISIBLE (11.2)',
         note='Does NOT decide completeness of erasure recovery nor that the factorisation search accepts exactly the right (k, n-k). Five '
              'defects of this codec were repaired (see known_findings.json "fixed"). ' + BASE,
         technique='layout comparison, dominance, loop-range and affine-stride (mixed radix) rules, ownership analysis'),
